@@ -37,13 +37,15 @@ RULE = (
 EXHAUSTIVE_SUBSPACES = ["all 4 (fold, optimize) combinations per case", "exhaustive reference probabilities over the full discrete domain"]
 ASSUMPTIONS = ["chi-square two-stage test at 1e-9 per stage (false-alarm probability < 1e-15 per case)", "single-output, single-unit circuits (the query returns samples[:, 0, 0])"]
 FLOOR = {"sum:arity>1": 1, "cc:TorchCPTLayer": 1, "cc:fold>1:TorchCategoricalLayer": 1, "nonbinary": 1, "prod:kronecker": 1, "one-hot-attribution": 1,
-         "samples_checked": 20000, "chi2_tests": 20, "sparse-scope": 1, "in:binomial-probs": 1, "resample-after-update": 1, "shared-layer": 1, "inputs-read-by-several-branches": 1}
+         "samples_checked": 20000, "chi2_tests": 20, "sparse-scope": 1, "in:binomial-probs": 1, "resample-after-update": 1, "shared-layer": 1, "inputs-read-by-several-branches": 1, "continuous-variables": 1, "continuous_chi2_tests": 8}
 
 
 def plan(tier, seed):
     n = 6 if tier == "quick" else 90
     kinds = ["rg-cp", "rg-cpt", "rg-tucker", "gen-hadamard", "gen-kronecker", "onehot", "sparse", "gen-mixing", "gen-shared", "branches"]
     cases = [{"kind": kinds[k % len(kinds)], "k": k, "seed": seed, "nseeds": 3 if tier == "quick" else 12} for k in range(n * len(kinds) // 2)]
+    # continuous (and mixed) circuits: cell frequencies against grid quadrature of the circuit density
+    cases += [{"kind": "gauss", "k": 20000 + k, "seed": seed, "nseeds": 2 if tier == "quick" else 5} for k in range(8 if tier == "quick" else 120)]
     # the hand-built DAG family is cheap: more of it
     cases += [{"kind": "branches", "k": 10000 + k, "seed": seed, "nseeds": 2 if tier == "quick" else 6} for k in range(8 if tier == "quick" else 150)]
     return cases
@@ -72,7 +74,7 @@ def build(case):
         sc = rg.build_circuit(input_factory=name_to_input_layer_factory(inp, **ikw), sum_product=sp, sum_weight_factory=sm, nary_sum_weight_factory=nary,
                               num_input_units=ni, num_sum_units=ni if sp != "cp" else rng.randint(1, 3), num_classes=1)
         return rng, sc
-    if kind in ("onehot", "branches"):
+    if kind in ("onehot", "branches", "gauss"):
         return rng, None
     prod = ("kronecker",) if kind == "gen-kronecker" else ("hadamard",)
     cfg = gen.GenCfg(nvars=rng.randint(2, 4), kinds=("cat", "binomial"), id_mode="sparse" if kind == "sparse" else "contiguous", monotonic=True,
@@ -140,6 +142,177 @@ def branches_circuit(rng):
     return Circuit(layers, in_layers, [root])
 
 
+def gauss_circuit(rng):
+    """Two Gaussian variables (stddev in [0.4, 1.2], means about N(0, 1.2)) and optionally one
+    categorical variable; mixture of 1-3 products (Hadamard / Kronecker, optionally behind per-leaf
+    sums).  Same-shaped Gaussian layers fold together under fold=True."""
+    from cirkit.symbolic.circuit import Circuit
+    from cirkit.symbolic.initializers import NormalInitializer
+
+    K = rng.randint(1, 3)
+    with_cat = rng.random() < 0.5
+    ids = [0, 1, 2] if with_cat else [0, 1]
+    cat_id = rng.choice(ids) if with_cat else None
+    ncat = rng.randint(2, 3)
+    layers, in_layers = [], {}
+
+    def add(l, ins=None):
+        layers.append(l)
+        if ins:
+            in_layers[l] = list(ins)
+        return l
+
+    def sm(shape):
+        return gen.weight_param(rng, "softmax", shape)
+
+    def inputs():
+        out = []
+        for v in ids:
+            if v == cat_id:
+                out.append(add(L.CategoricalLayer(gen.Scope([v]), K, num_categories=ncat)))
+            else:
+                mean = P.Parameter.from_input(P.TensorParameter(K, initializer=NormalInitializer(0.0, 1.2)))
+                sd = P.Parameter.from_unary(P.ScaledSigmoidParameter((K,), vmin=0.4, vmax=1.2), P.TensorParameter(K, initializer=NormalInitializer()))
+                out.append(add(L.GaussianLayer(gen.Scope([v]), K, mean=mean, stddev=sd)))
+        return out
+
+    shared = inputs()
+    branches = []
+    for _ in range(rng.randint(1, 3)):
+        ins = shared if rng.random() < 0.5 else inputs()
+        if rng.random() < 0.4:
+            ins = [add(L.SumLayer(K, K, arity=1, weight=sm((K, K))), [i]) for i in ins]
+        pl = add(L.HadamardLayer(K, arity=len(ins)) if rng.random() < 0.6 or K ** len(ins) > 9 else L.KroneckerLayer(K, arity=len(ins)), ins)
+        branches.append(add(L.SumLayer(pl.num_output_units, 1, arity=1, weight=sm((1, pl.num_output_units))), [pl]))
+    root = add(L.SumLayer(1, 1, arity=len(branches), weight=sm((1, len(branches)))), branches) if len(branches) > 1 else branches[0]
+    cont = [v for v in ids if v != cat_id]
+    return Circuit(layers, in_layers, [root]), cont, cat_id, ncat
+
+
+def run_gauss(case) -> Result:
+    """Samples of continuous / mixed circuits: cell frequencies (terciles x terciles x category)
+    against the cell masses obtained by midpoint quadrature of the reference density."""
+    res = Result()
+    rng = case_rng(ID, case["seed"], (case["kind"], case["k"]))
+    sc, cont, cat_id, ncat = gauss_circuit(rng)
+    res.features |= structs.circuit_features(sc)
+    res.features.add("continuous-variables")
+    res.sig = short_hash(["gauss", __import__("vf.props.c01", fromlist=["x"]).struct_sig(sc)])
+    ids = sorted(cont + ([cat_id] if cat_id is not None else []))
+    G, lo, hi = 360, -12.0, 12.0
+    h = (hi - lo) / G
+    mid = lo + (np.arange(G) + 0.5) * h
+    cats = list(range(ncat)) if cat_id is not None else [0]
+    N1 = 20000
+    for fold, opt in C.FLAGS:
+        tag = f"gauss {C.flag_name(fold, opt)}"
+        comp = C.new_compiler("sum-product", fold, opt)
+        cc_ = C.compile_in(res, comp, sc, tag)
+        if cc_ is None:
+            continue
+        res.features |= structs.compiled_features(cc_)
+        oq = call(SamplingQuery, cc_)
+        if not oq.ok:
+            exc_violation(res, oq, f"SamplingQuery() [{tag}]")
+            continue
+        q = oq.value
+        for s in range(case["nseeds"] + 1):
+            if s == case["nseeds"]:
+                tie.revalue(comp, sc, np.random.default_rng(4242 + case["k"]), "posonly")
+                res.features.add("resample-after-update")
+            if s in (0, case["nseeds"]):
+                # reference cell masses under the current valuation
+                gx, gy = np.meshgrid(mid, mid, indexing="ij")
+                dens = []
+                for cval in cats:
+                    X = np.zeros((G * G, len(ids)))
+                    X[:, ids.index(cont[0])] = gx.ravel()
+                    X[:, ids.index(cont[1])] = gy.ravel()
+                    if cat_id is not None:
+                        X[:, ids.index(cat_id)] = cval
+                    r, _ = C.reference(sc, comp, X)
+                    dens.append(np.real(r[:, 0, 0]).reshape(G, G) * h * h)
+                dens = np.stack(dens)  # (ncat, G, G)
+                total = dens.sum()
+                if abs(total - 1.0) > 1e-5 or np.any(dens < -1e-12):
+                    res.note = f"reference mass {total:.6f}: circuit not normalised or grid too coarse; skipped"
+                    res.status = "skip"
+                    return res
+                # tercile edges of each continuous marginal, aligned to grid edges
+                edges = []
+                for ax in (1, 2):
+                    cdf = np.cumsum(dens.sum(axis=(0, 3 - ax)))
+                    edges.append([int(np.searchsorted(cdf, t)) + 1 for t in (1 / 3, 2 / 3)])
+                cellp = np.zeros((len(cats), 3, 3))
+                bx = [0] + edges[0] + [G]
+                by = [0] + edges[1] + [G]
+                for i in range(3):
+                    for j in range(3):
+                        cellp[:, i, j] = dens[:, bx[i]:bx[i + 1], by[j]:by[j + 1]].sum(axis=(1, 2))
+                probs = cellp.ravel() / cellp.sum()
+                tx = [lo + e * h for e in edges[0]]
+                ty = [lo + e * h for e in edges[1]]
+
+            def cell_counts(samples):
+                cols = samples if samples.shape[1] == len(ids) else samples[:, ids]
+                ci = np.searchsorted(tx, cols[:, ids.index(cont[0])])
+                cj = np.searchsorted(ty, cols[:, ids.index(cont[1])])
+                if cat_id is not None:
+                    cc = cols[:, ids.index(cat_id)]
+                    if np.any(cc < 0) or np.any(cc >= ncat) or np.any(cc != np.round(cc)):
+                        return None
+                    cc = cc.astype(int)
+                else:
+                    cc = np.zeros(len(cols), dtype=int)
+                return np.bincount((cc * 3 + ci) * 3 + cj, minlength=len(probs)).astype(np.float64)
+
+            def chi2(counts, n):
+                e = probs * n
+                keep = e >= 5
+                e2 = np.concatenate([e[keep], [e[~keep].sum()]]) if (~keep).any() else e
+                c2 = np.concatenate([counts[keep], [counts[~keep].sum()]]) if (~keep).any() else counts
+                c2, e2 = c2[e2 > 0], e2[e2 > 0]
+                if len(e2) < 2:
+                    return 0.0, 1.0
+                st = float(((c2 - e2) ** 2 / e2).sum())
+                return st, float(stats.chi2.sf(st, len(e2) - 1))
+
+            torch.manual_seed(1000 * case["k"] + s)
+            o = call(q, N1)
+            if not o.ok:
+                exc_violation(res, o, f"sampling [{tag}]", "exception-sampling")
+                break
+            samples = o.value[0].detach().numpy()
+            if samples.shape != (N1, len(ids)):
+                res.violate("sample-shape", f"[{tag}] samples of shape {samples.shape}, expected ({N1}, {len(ids)})")
+                break
+            if not np.all(np.isfinite(samples)):
+                res.violate("sample-out-of-domain", f"[{tag}] non-finite sample values")
+                break
+            res.count("samples_checked", N1)
+            counts = cell_counts(samples)
+            if counts is None:
+                res.violate("sample-out-of-domain", f"[{tag}] the categorical column holds values outside its domain")
+                break
+            st, p = chi2(counts, N1)
+            res.count("chi2_tests")
+            res.count("continuous_chi2_tests")
+            if p < 1e-9:
+                torch.manual_seed(777 + 1000 * case["k"] + s)
+                o2 = call(q, 4 * N1)
+                if o2.ok:
+                    counts2 = cell_counts(o2.value[0].detach().numpy())
+                    if counts2 is None:
+                        res.violate("sample-out-of-domain", f"[{tag}] the categorical column holds values outside its domain")
+                        break
+                    st2, p2 = chi2(counts2, 4 * N1)
+                    if p2 < 1e-9:
+                        worst = int(np.argmax(np.abs(counts2 / (4 * N1) - probs)))
+                        res.violate("distribution-mismatch", f"[{tag}] continuous cells (category x tercile x tercile): chi-square p={p:.1e} then p={p2:.1e} on an independent 4x sample; cell {worst}: frequency {counts2[worst] / (4 * N1):.4f} vs mass {probs[worst]:.4f}")
+                        break
+    return res
+
+
 def onehot_circuit(rng):
     """Mixture of products of one-hot categoricals: category of variable v is code(v) = v + 1 (of
     n + 2 categories) so that every sample must be exactly (1, 2, ..., n) column-wise."""
@@ -167,6 +340,8 @@ def onehot_circuit(rng):
 
 
 def run_case(case) -> Result:
+    if case["kind"] == "gauss":
+        return run_gauss(case)
     res = Result()
     rng, sc = build(case)
     kind = case["kind"]
